@@ -255,10 +255,72 @@ def run(ctx, rep):
         missing = [fl for fl in fields if fl not in got]
         orders = [cs for cs in f.calls(region) if cs.name in ("swap", "sort", "sort_unstable", "sort_by", "sort_by_key")
                   and cs.callee != f.path]
+        # the children must be canonical *before* they are compared/reordered: no recursive sort() may
+        # still be ahead of a comparison or reordering of the children
+        cmps = [cs for cs in f.calls(region) if cs.name in ("gt", "lt", "ge", "le", "cmp", "partial_cmp")]
+        rec_blocks = {cs.bb for cs in rec_calls if cs.bb in region}
+        late = []
+        for cs in orders + cmps:
+            ahead = (f.reachable(cs.bb) - {cs.bb}) & rec_blocks
+            # a loop that sorts each element and then orders the whole vector: the ordering call must lie
+            # outside the loop that contains the recursive calls
+            if ahead and not (v == "Threshold" and not f.in_loop(cs.bb)):
+                late.append(cs)
         if missing:
             rep.violation("C16.sort", "arm:%s:children" % v, "children %s of %s are not sorted recursively" % (missing, v), f.where())
         elif not orders:
             rep.violation("C16.sort", "arm:%s:order" % v, "children of %s are never reordered" % v, f.where())
+        elif late:
+            rep.violation("C16.sort", "arm:%s:sequence" % v, "children of %s are compared/reordered (%s) before they are themselves "
+                          "sorted: the result depends on the children's initial order" % (v, sorted({c.name for c in late})), late[0].where())
         else:
             rep.ok("C16.sort", "arm:" + v, "recursive sort of %s then %s" % (fields, sorted({o.name for o in orders})))
+
+    # ---------- satisfaction gates (necessary condition of 'succeeds exactly when the answers make it true') ----------
+    rep.rule("C16.gate", "satisfy_internal: an unsatisfiable leaf is reported hidden; every leaf/or/threshold result is gated by ok_if on its condition")
+    GATE = {"Unsatisfiable": "hide", "Trivial": None, "Key": "ok_if", "After": "ok_if", "Older": "ok_if", "Sha256": "ok_if",
+            "And": None, "Or": "ok_if", "Threshold": "ok_if"}
+    si = builders.get("satisfy_internal")
+    if si is not None:
+        sws2 = enum_switches(si, "policy::ast::Policy")
+        if sws2:
+            b2, (pl2, adt2, targets2, oth2, rest2) = sws2[0]
+            for v, tgt in sorted(targets2.items()):
+                region = si.dominated_by(tgt)
+                names = {cs.name for cs in si.calls(region)}
+                want = GATE.get(v, "?")
+                if want == "?":
+                    continue
+                if want is None:
+                    if "hide" in names:
+                        rep.violation("C16.gate", v, "arm %s hides its result unconditionally" % v, si.where())
+                    else:
+                        rep.ok("C16.gate", v, "ungated (satisfied iff its children are)")
+                elif want in names:
+                    rep.ok("C16.gate", v, "result passes through %s" % want)
+                else:
+                    rep.violation("C16.gate", v, "arm %s returns its fragment without %s: an unsatisfied %s is reported as satisfied"
+                                  % (v, want, v.lower()), si.where())
+    okif = F.fn("simplicity::policy::satisfy::ok_if")
+    if okif is None:
+        rep.anchor("C16.gate", "policy::satisfy::ok_if")
+    else:
+        # ok_if(cond, expr): cond true -> expr, false -> expr.hide()
+        Tk = Terms(okif)
+        sw = [bb for bb in okif.rpo() if okif.blocks[bb]["t"]["k"] == "switch"]
+        good = False
+        if len(sw) == 1:
+            t = okif.blocks[sw[0]]["t"]
+            roots = vcc.param_roots(Tk.operand(t["discr"]), fm)
+            zero = [tg for vv, tg in t["targets"] if vv == "0"]
+            if roots == {1} and zero:
+                false_region = okif.reachable(zero[0]) - okif.reachable(t["otherwise"])
+                true_region = okif.reachable(t["otherwise"]) - okif.reachable(zero[0])
+                hides_f = any(cs.name == "hide" for cs in okif.calls(false_region))
+                hides_t = any(cs.name == "hide" for cs in okif.calls(true_region))
+                good = hides_f and not hides_t
+        if good:
+            rep.ok("C16.gate", "ok_if", "false → hide(), true → unchanged")
+        else:
+            rep.violation("C16.gate", "ok_if", "ok_if does not hide exactly when its condition is false", okif.where())
     return FINISH
